@@ -1,6 +1,12 @@
 package main
 
 import (
+	"os"
+	"golang.org/x/tools/go/ssa/ssautil"
+	"fmt"
+	"strings"
+	"golang.org/x/tools/go/ssa"
+	"go/token"
 	"sort"
 	"time"
 )
@@ -13,6 +19,122 @@ func (cr *checkRun) preSolveChecks() {
 	if cr.prop == "C09" {
 		cr.asmChecks()
 	}
+	cr.frozenChecks()
+}
+
+// frozenChecks: the write-once discipline of `frozen` globals is a static obligation: outside
+// the package initialisers a frozen global is only loaded, indexed for loading, or passed (by
+// address of an element) to a function under contract, whose frame then accounts for it.
+func (cr *checkRun) frozenChecks() {
+	pkgs := map[string]bool{}
+	for _, fr := range cr.fns {
+		// Func is "<pkg>.<relname>"
+		if i := strings.Index(fr.Func, "."); i > 0 {
+			pkgs[fr.Func[:i]] = true
+		}
+	}
+	var globals []*ssa.Global
+	for g := range cr.e.globalIDs {
+		if g.Pkg != nil && pkgs[g.Pkg.Pkg.Name()] && cr.e.contracts.Frozen[contractKey(g.Pkg.Pkg.Path(), g.Name())] {
+			globals = append(globals, g)
+		}
+	}
+	sort.Slice(globals, func(i, j int) bool { return globals[i].String() < globals[j].String() })
+	for _, g := range globals {
+		o := &Oblig{Fn: "frozen", Name: "frozen:" + g.Pkg.Pkg.Name() + "." + g.Name() + "#written-only-by-init", Kind: "frozen", preSolved: true, goal: TFalse, Solver: "SSA scan of every function of the package"}
+		cr.obs = append(cr.obs, o)
+		var bad []string
+		var readOnly func(v ssa.Value, fn *ssa.Function) string
+		readOnly = func(v ssa.Value, fn *ssa.Function) string {
+			refs := v.Referrers()
+			if refs == nil {
+				return ""
+			}
+			for _, r := range *refs {
+				switch x := r.(type) {
+				case *ssa.UnOp:
+					if x.Op != token.MUL {
+						return "used by " + x.String()
+					}
+				case *ssa.IndexAddr:
+					if x.X != v {
+						return "used as index"
+					}
+					if why := readOnly(x, fn); why != "" {
+						return why
+					}
+				case *ssa.FieldAddr:
+					if why := readOnly(x, fn); why != "" {
+						return why
+					}
+				case *ssa.DebugRef:
+				case ssa.CallInstruction:
+					callee, _ := x.Common().Value.(*ssa.Function)
+					if callee == nil || (cr.e.contractFor(callee) == nil && !cr.e.isSpecFn(callee)) {
+						return "passed to a function without contract: " + x.String()
+					}
+				case *ssa.Store:
+					return "stored to at " + cr.e.prog.Fset.Position(x.Pos()).String()
+				default:
+					return "used by " + r.String()
+				}
+			}
+			return ""
+		}
+		n := 0
+		initOnly := initOnlyFunctions(cr.e, g.Pkg)
+		for fn := range ssautilAllFunctions(cr.e) {
+			if fn.Pkg != g.Pkg || strings.HasPrefix(fn.Name(), "init") || fn.Synthetic != "" || initOnly[fn] {
+				continue
+			}
+			n++
+			for _, b := range fn.Blocks {
+				for _, ins := range b.Instrs {
+					for _, op := range ins.Operands(nil) {
+						if *op != ssa.Value(g) {
+							continue
+						}
+						var why string
+						switch x := ins.(type) {
+						case *ssa.UnOp:
+							if x.Op != token.MUL {
+								why = "used by " + x.String()
+							}
+						case *ssa.IndexAddr:
+							why = readOnly(x, fn)
+						case *ssa.FieldAddr:
+							why = readOnly(x, fn)
+						case *ssa.DebugRef:
+						case *ssa.Store:
+							why = "stored to"
+						default:
+							why = "used by " + ins.String()
+						}
+						if why != "" {
+							bad = append(bad, fn.String()+": "+why)
+						}
+					}
+				}
+			}
+		}
+		o.Cases = int64(n)
+		if len(bad) == 0 {
+			o.Status = "proved"
+			o.Detail = fmt.Sprintf("%d functions scanned", n)
+		} else {
+			sort.Strings(bad)
+			o.Status = "refuted"
+			o.Model = strings.Join(bad, "\n")
+			o.Replayed = true
+		}
+	}
+}
+
+func ssautilAllFunctions(e *Engine) map[*ssa.Function]bool {
+	if e.allFns == nil {
+		e.allFns = ssautil.AllFunctions(e.prog)
+	}
+	return e.allFns
 }
 
 func (cr *checkRun) extraChecks(verif string) {
@@ -67,4 +189,62 @@ func (cr *checkRun) evalLemmaChecks() {
 	if total > 0 {
 		cr.extraCov["exhaustively_evaluated_cases"] = total
 	}
+}
+
+// initOnlyFunctions: unexported functions of the package that are never used as values and
+// whose every call site is in a package initialiser or in another such function.
+func initOnlyFunctions(e *Engine, pkg *ssa.Package) map[*ssa.Function]bool {
+	callers := map[*ssa.Function][]*ssa.Function{}
+	valueUse := map[*ssa.Function]bool{}
+	var all []*ssa.Function
+	for fn := range ssautilAllFunctions(e) {
+		if fn.Pkg != pkg {
+			continue
+		}
+		all = append(all, fn)
+		for _, b := range fn.Blocks {
+			for _, ins := range b.Instrs {
+				skipFirst := false
+				if _, isDbg := ins.(*ssa.DebugRef); isDbg {
+					continue
+				}
+				if ci, ok := ins.(ssa.CallInstruction); ok {
+					if callee, ok := ci.Common().Value.(*ssa.Function); ok {
+						callers[callee] = append(callers[callee], fn)
+						skipFirst = true // operand 0 of a static call is the callee itself
+					}
+				}
+				for k, op := range ins.Operands(nil) {
+					if f, ok := (*op).(*ssa.Function); ok && !(skipFirst && k == 0) {
+						valueUse[f] = true
+					}
+				}
+			}
+		}
+	}
+	if os.Getenv("GOCV_DBG") != "" {
+		for _, fn := range all {
+			fmt.Println("INITONLY?", fn.String(), len(callers[fn]), valueUse[fn], fn.Object() == nil)
+		}
+	}
+	out := map[*ssa.Function]bool{}
+	for changed := true; changed; {
+		changed = false
+		for _, fn := range all {
+			if out[fn] || valueUse[fn] || fn.Object() == nil || fn.Object().Exported() || len(callers[fn]) == 0 || fn.Signature.Recv() != nil {
+				continue
+			}
+			ok := true
+			for _, c := range callers[fn] {
+				if !(strings.HasPrefix(c.Name(), "init") && c.Signature.Recv() == nil && c.Signature.Params().Len() == 0) && !out[c] {
+					ok = false
+				}
+			}
+			if ok {
+				out[fn] = true
+				changed = true
+			}
+		}
+	}
+	return out
 }
